@@ -409,6 +409,10 @@ MUTANTS.extend(_R4_W1)
 from mutants_r5_w1 import E as _R5_W1  # noqa: E402
 
 MUTANTS.extend(_R5_W1)
+# round 6 (worker W1)
+from mutants_r6_w1 import E as _R6_W1  # noqa: E402
+
+MUTANTS.extend(_R6_W1)
 
 from mutants_r4_w2 import E as _R4_W2  # noqa: E402
 
